@@ -91,6 +91,9 @@ func genC01(t *rapid.T) c01Case {
 	c.Head = 8*c.Seg + 5
 	inits := []uint64{0, 0, 0, 1, c.Seg - 1, c.Seg, c.Seg + 1, 2*c.Seg + 2}
 	c.Prog = pgen.Gen(t, pgen.Opts{MinMods: 2, MaxMods: 7, InitialBlocks: inits, ForceStoreOutput: rapid.IntRange(0, 9).Draw(t, "forcestore") < 7})
+	if rapid.IntRange(0, 4).Draw(t, "chainprog") == 0 {
+		c.Prog = pgen.GenChain(t, rapid.IntRange(2, 3).Draw(t, "chaindepth"), inits) // 2..3 store stages below the mapper
+	}
 	if len(c.Prog.Maps()) == 0 {
 		c.Prog = pgen.Gen(t, pgen.Opts{MinMods: 2, MaxMods: 7, InitialBlocks: inits, ForceStoreOutput: true})
 	}
